@@ -287,3 +287,106 @@ Proof.
   change (find (x_one x) (out_edges E v)) with (find (one x) (outs E v)).
   destruct (find (one x) (outs E v)) as [e|]; [rewrite IH|]; reflexivity.
 Qed.
+
+(* ---- kPathCover rows ---- *)
+Lemma sumq_bin_pos {A} (g : A -> Q) (l : list A) :
+  (forall x, In x l -> bin (g x)) -> (1 <= sumq g l)%Q -> exists x, In x l /\ (g x == 1)%Q.
+Proof.
+  induction l as [|x l IH]; intros Hb Hs; cbn [sumq] in Hs.
+  - exfalso. apply (Qle_not_lt _ _ Hs). reflexivity.
+  - destruct (Hb x (or_introl eq_refl)) as [H0|H1].
+    + destruct IH as (y & Hy & Gy); [intros y Hy; apply Hb; right; exact Hy|rewrite H0 in Hs; lra|].
+      exists y. split; [right; exact Hy|exact Gy].
+    + exists x. split; [left; reflexivity|exact H1].
+Qed.
+
+Theorem kpc_covers (I : path_inst) (ignore : list PathEnc.edge) (a : var -> Q) :
+  sat a (encode_kpc I ignore) ->
+  forall e, In e (g_edges (p_graph I)) -> mem_edge e ignore = false ->
+  exists i, In i (layers (p_k I)) /\ xval a i e = 1%Z.
+Proof.
+  intros [Hc Hr] e He Hig. unfold encode_kpc in Hc, Hr. cbn [cols rows] in Hc, Hr.
+  unfold base_cols in Hc. rewrite Forall_app in Hc. destruct Hc as [Hc _].
+  rewrite Forall_app in Hr. destruct Hr as [_ Hr].
+  assert (R : sat_row a (mkrow (map (fun i => (Edge (fst e) (snd e) i, 1%Q)) (layers (p_k I))) SGe 1%Q)).
+  { apply (sat_rows_in a _ _ Hr). unfold kpc_rows.
+    apply (in_map (fun e => mkrow (map (fun i => (Edge (fst e) (snd e) i, 1%Q)) (layers (p_k I))) SGe 1%Q)).
+    apply filter_In. split; [exact He|rewrite Hig; reflexivity]. }
+  unfold sat_row, mkrow in R. cbn [sns lhs rhs] in R.
+  rewrite (eval_map_const a (fun i => Edge (fst e) (snd e) i) 1%Q) in R. rewrite Qmult_1_l in R.
+  destruct (sumq_bin_pos (fun i => a (Edge (fst e) (snd e) i)) (layers (p_k I))) as (i & Hi & Gi).
+  - intros i Hi. apply (edge_bin (p_graph I) (p_k I) a Hc i e Hi He).
+  - exact R.
+  - exists i. split; [exact Hi|]. unfold xval. apply Qeq_bool_iff in Gi. rewrite Gi. reflexivity.
+Qed.
+
+(* ---- subpath constraints (7a / 7b) ---- *)
+Lemma eval_map_coef_edges a i (I : path_inst) (c : list PathEnc.edge) :
+  (eval a (map (fun e => (Edge (fst e) (snd e) i, elen I e)) c) == sumq (fun e => elen I e * a (Edge (fst e) (snd e) i)) c)%Q.
+Proof. apply (eval_map_coef a (fun e => Edge (fst e) (snd e) i) (elen I) c). Qed.
+
+Lemma in_zipn {A} (l : list A) : forall s j c, In (j, c) (zipn s l) -> exists n, j = N.of_nat n /\ (s <= n)%nat /\ nth_error l (n - s) = Some c.
+Proof.
+  induction l as [|x l IH]; intros s j c H; [destruct H|]. cbn [zipn] in H. destruct H as [E|H].
+  - injection E as <- <-. exists s. rewrite Nat.sub_diag. auto.
+  - destruct (IH (Datatypes.S s) j c H) as (n & -> & Hn & Hnth). exists n. split; [reflexivity|]. split; [lia|].
+    replace (n - s)%nat with (Datatypes.S (n - Datatypes.S s)) by lia. exact Hnth.
+Qed.
+
+Lemma zipn_in {A} (l : list A) : forall s n c, nth_error l n = Some c -> In (N.of_nat (s + n), c) (zipn s l).
+Proof.
+  induction l as [|x l IH]; intros s n c H; [destruct n; discriminate|]. destruct n as [|n]; cbn [nth_error] in H.
+  - injection H as ->. rewrite Nat.add_0_r. left. reflexivity.
+  - right. replace (s + Datatypes.S n)%nat with (Datatypes.S s + n)%nat by lia. apply IH. exact H.
+Qed.
+
+(* C10: every constraint is realised in ONE layer: some layer i carries at least the required
+   (edge- or length-weighted) fraction of the constraint's edges *)
+Theorem cons_rows_sound (I : path_inst) (a : var -> Q) :
+  Forall (sat_col a) (base_cols I) -> Forall (sat_row a) (base_rows I) ->
+  forall n c, nth_error (p_cons I) n = Some c ->
+  exists i, In i (layers (p_k I)) /\
+    (cons_length I c * p_cov I <= sumq (fun e => elen I e * a (Edge (fst e) (snd e) i)) c)%Q.
+Proof.
+  intros Hc Hr n c Hn.
+  unfold base_cols in Hc. rewrite Forall_app in Hc. destruct Hc as [_ Hcc].
+  unfold base_rows in Hr. rewrite Forall_app in Hr. destruct Hr as [_ Hrc].
+  assert (Hne : p_cons I <> []) by (intros E; rewrite E in Hn; destruct n; discriminate).
+  unfold cons_cols in Hcc. unfold cons_rows in Hrc.
+  destruct (p_cons I) as [|c0 cs] eqn:EC; [contradiction|]. rewrite <- EC in *.
+  rewrite Forall_app in Hrc. destruct Hrc as [H7a H7b].
+  set (j := N.of_nat n).
+  assert (Hj : In j (cons_idx I)).
+  { unfold cons_idx. apply in_map. apply in_seq. split; [lia|]. cbn [plus]. apply nth_error_Some. rewrite Hn. discriminate. }
+  (* 7b: some layer has R i j = 1 *)
+  assert (R7b : sat_row a (row_7b I j)) by (apply (sat_rows_in a _ _ H7b); apply in_map; exact Hj).
+  unfold sat_row, row_7b, mkrow in R7b. cbn [sns lhs rhs] in R7b.
+  rewrite (eval_map_const a (fun i => R i j) 1%Q) in R7b. rewrite Qmult_1_l in R7b.
+  destruct (sumq_bin_pos (fun i => a (R i j)) (layers (p_k I))) as (i & Hi & Ri).
+  - intros i Hi. apply bin_of_col. apply (sat_cols_in a _ _ Hcc). apply in_flat_map. exists i. split; [exact Hi|].
+    apply (in_map (fun j => bincol (R i j))). exact Hj.
+  - exact R7b.
+  - exists i. split; [exact Hi|].
+    assert (R7a : sat_row a (row_7a I i (j, c))).
+    { apply (sat_rows_in a _ _ H7a). apply in_flat_map. exists i. split; [exact Hi|]. apply in_map.
+      pose proof (zipn_in (p_cons I) 0 n c Hn) as Z. cbn [plus] in Z. exact Z. }
+    unfold sat_row, row_7a, mkrow in R7a. cbn [sns lhs rhs fst snd] in R7a.
+    rewrite eval_app, eval_map_coef_edges in R7a. cbn [eval fst snd] in R7a. rewrite Ri in R7a. lra.
+Qed.
+
+Lemma flat_map_ext_in' {A B} (f g : A -> list B) l : (forall x, In x l -> f x = g x) -> flat_map f l = flat_map g l.
+Proof. induction l as [|x l IH]; intros H; cbn [flat_map]; [reflexivity|]. rewrite (H x (or_introl eq_refl)), IH; [reflexivity|]. intros y Hy. apply H. right. exact Hy. Qed.
+
+(* C10: an ignored edge's flow value has no influence on the generated model *)
+Theorem kfd_ignore_frame (I : kfd_inst) (flow' : list (PathEnc.edge * Q)) :
+  (forall e, In e (g_edges (p_graph (f_base I))) -> mem_edge e (f_ignore I) = false ->
+             lookup_q e flow' 0%Q = lookup_q e (f_flow I) 0%Q) ->
+  encode_kfd {| f_base := f_base I; f_flow := flow'; f_ignore := f_ignore I; f_wmax := f_wmax I; f_int := f_int I |}
+  = encode_kfd I.
+Proof.
+  intros H. unfold encode_kfd. cbn [f_base]. f_equal. f_equal.
+  unfold kfd_rows. cbn [f_base f_ignore].
+  apply flat_map_ext_in'. intros e He. apply filter_In in He. destruct He as [He Hig].
+  unfold kfd_edge_rows. cbn [f_base f_wmax f_flow]. f_equal. f_equal.
+  rewrite (H e He); [reflexivity|]. destruct (mem_edge e (f_ignore I)); [discriminate|reflexivity].
+Qed.
